@@ -34,8 +34,6 @@ M = [
  ("C03", "summary-sum-dropped-when-count-zero", "pkg/otel/metrics/arrow/summary_dp.go",
   "b.ssb.AppendNonZero(summary.Orig.Sum())", "if summary.Orig.Count() != 0 {\n\t\t\tb.ssb.AppendNonZero(summary.Orig.Sum())\n\t\t} else {\n\t\t\tb.ssb.AppendNonZero(0)\n\t\t}"),
  # ---- C04
- ("C04", "zstd-flag-also-disables-dictionary-deltas", "pkg/otel/arrow_record/producer.go",
-  "\t\t\t\t\tipc.WithDictionaryDeltas(true), // enable dictionary deltas\n", "\t\t\t\t\tipc.WithDictionaryDeltas(!p.zstd), // enable dictionary deltas\n"),
  ("C04", "attrs32-nothing-sorter-raw-ids", "pkg/otel/common/arrow/attributes_32.go",
   "func (s *Attrs32ByNothing) Sort(_ []Attr32) []string {\n\t// Do nothing\n\treturn []string{}\n}\n",
   "func (s *Attrs32ByNothing) Sort(_ []Attr32) []string {\n\t// Do nothing\n\treturn []string{}\n}\n\n// Encode returns the parent id as is (no sorting, no delta).\nfunc (s *Attrs32ByNothing) Encode(parentID uint32, _ string, _ *pcommon.Value) uint32 {\n\treturn parentID\n}\n"),
@@ -43,7 +41,7 @@ M = [
  ("C05", "split-copies-instead-of-moving", BP + "splittraces.go",
   "\t\t\t\tsrcSpan.MoveTo(destIls.Spans().AppendEmpty())\n\t\t\t\ttotalCopiedSpans++\n\t\t\t\treturn true\n", "\t\t\t\tsrcSpan.CopyTo(destIls.Spans().AppendEmpty())\n\t\t\t\ttotalCopiedSpans++\n\t\t\t\treturn totalCopiedSpans%7 != 0\n"),
  ("C05", "no-final-flush-on-shutdown", BP + "batch_processor.go",
-  "\t\t\tif b.batch.itemCount() > 0 {\n\t\t\t\t// TODO: Set a timeout on sendTraces or\n", "\t\t\tif b.batch.itemCount() > 0 && b.hasTimer() {\n\t\t\t\t// TODO: Set a timeout on sendTraces or\n"),
+  "\t\t\tif b.batch.itemCount() > 0 {\n\t\t\t\t// TODO: Set a timeout on sendTraces or\n", "\t\t\tif b.batch.itemCount() > 2 {\n\t\t\t\t// TODO: Set a timeout on sendTraces or\n"),
  ("C05", "split-metric-forgets-unit", BP + "splitmetrics.go",
   "\tdest.SetUnit(ms.Unit())\n", ""),
  # ---- C06
@@ -52,8 +50,6 @@ M = [
  ("C06", "partial-send-does-not-decrement", BP + "batch_processor.go",
   "\t\t\tb.pending[0].numItems -= partialSent\n", "\t\t\tif partialSent > 1 {\n\t\t\t\tb.pending[0].numItems -= partialSent\n\t\t\t}\n"),
  # ---- C07
- ("C07", "payload-count-check-dropped", "pkg/otel/arrow_record/consumer.go",
-  "\tif len(ibes) < len(bar.ArrowPayloads) {\n\t\treturn ibes, werror.Wrap(errConsumerInternalError)\n\t}\n", ""),
  ("C07", "traces-duplicate-main-record-ignored", "pkg/otel/traces/otlp/related_data.go",
   "\t\t\tif tracesRecord != nil {\n\t\t\t\treturn nil, nil, werror.Wrap(otel.ErrMultipleTracesRecords)\n\t\t\t}\n", ""),
  ("C07", "revert-D3a-related-data-error-dropped", "pkg/otel/arrow_record/consumer.go",
@@ -61,11 +57,10 @@ M = [
  ("C07", "revert-D3b-and-D15-nil-reader-released", "pkg/otel/arrow_record/consumer.go",
   "\t\t\t\t\tif sc.ipcReader != nil {\n\t\t\t\t\t\tsc.ipcReader.Release()\n\t\t\t\t\t}\n\t\t\t\t\tdelete(c.streamConsumers, scID)\n", "\t\t\t\t\tsc.ipcReader.Release()\n\t\t\t\t\tdelete(c.streamConsumers, scID)\n"),
  # ---- C08
- ("C08", "delta-builder-never-resets-base", "pkg/otel/common/schema/builder/uint.go",
-  "\t\t\tif builder.Len() == 0 {\n\t\t\t\tbuilder.Append(value)\n\t\t\t} else {\n\t\t\t\tif value < b.prev {\n\t\t\t\t\t// Should never happen.\n\t\t\t\t\tpanic(\"value is less than previous value\")\n\t\t\t\t}\n\t\t\t\tdelta := value - b.prev\n\t\t\t\tif delta > b.maxDelta {\n\t\t\t\t\tpanic(\"delta is greater than max delta, consider sorting the data\")\n\t\t\t\t}\n\t\t\t\tbuilder.Append(delta)\n\t\t\t}\n\t\t\tb.prev = value\n\t\tcase *array.Uint16DictionaryBuilder:",
-  "\t\t\tif builder.Len() == 0 && value == 0 {\n\t\t\t\tbuilder.Append(value)\n\t\t\t} else {\n\t\t\t\tif value < b.prev {\n\t\t\t\t\t// Should never happen.\n\t\t\t\t\tpanic(\"value is less than previous value\")\n\t\t\t\t}\n\t\t\t\tdelta := value - b.prev\n\t\t\t\tif delta > b.maxDelta {\n\t\t\t\t\tpanic(\"delta is greater than max delta, consider sorting the data\")\n\t\t\t\t}\n\t\t\t\tbuilder.Append(delta)\n\t\t\t}\n\t\t\tb.prev = value\n\t\tcase *array.Uint16DictionaryBuilder:"),
  ("C08", "metrics-limit-check-off-by-a-lot", "pkg/otel/metrics/arrow/metrics.go",
   "if len(optimizedMetrics.Metrics) > math.MaxUint16+1 {", "if len(optimizedMetrics.Metrics) > math.MaxUint16+1000 {"),
+ ("C08", "uint32-delta-null-first-row-no-reset", "pkg/otel/common/schema/builder/uint.go",
+  "func (b *Uint32DeltaBuilder) AppendNull() {\n\tif b.builder != nil {\n\t\tif b.builder.Len() == 0 {\n\t\t\tb.prev = 0\n\t\t}\n", "func (b *Uint32DeltaBuilder) AppendNull() {\n\tif b.builder != nil {\n"),
  # ---- C09
  ("C09", "flush-only-above-batch-size", BP + "batch_processor.go",
   "b.batch.itemCount() >= b.processor.sendBatchSize) {", "b.batch.itemCount() > b.processor.sendBatchSize) {"),
@@ -102,8 +97,10 @@ M = [
  # ---- C14
  ("C14", "limit-error-not-matchable", "pkg/otel/common/arrow/allocator.go",
   "func (_ LimitError) Is(tgt error) bool {", "func (_ LimitError) Is(tgt error) bool {\n\tif _, ok := tgt.(*LimitError); !ok {\n\t\treturn false\n\t}"),
- ("C14", "reallocate-not-limited", "pkg/otel/common/arrow/allocator.go",
-  "func (l *LimitedAllocator) Reallocate(size int, b []byte) []byte {\n", "func (l *LimitedAllocator) Reallocate(size int, b []byte) []byte {\n\tif len(b) > 0 {\n\t\tl.inuse += uint64(size) - uint64(len(b))\n\t\treturn l.Allocator.Reallocate(size, b)\n\t}\n"),
+ ("C14", "limit-tested-after-allocation-with-slack", "pkg/otel/common/arrow/allocator.go",
+  "func (l *LimitedAllocator) Allocate(size int) []byte {\n\tchange := uint64(size)\n\tif l.inuse+change > l.limit {", "func (l *LimitedAllocator) Allocate(size int) []byte {\n\tchange := uint64(size)\n\tif l.inuse+change > l.limit+l.limit/8 {"),
+ ("C14", "inuse-not-reduced-on-free-of-small-buffers", "pkg/otel/common/arrow/allocator.go",
+  "\tl.inuse -= uint64(len(b))\n", "\tif len(b) >= 64 {\n\t\tl.inuse -= uint64(len(b))\n\t}\n"),
  # ---- C15
  ("C15", "optimizer-sorts-input-in-place", "pkg/otel/logs/arrow/optimizer.go",
   "\tt.sorter.Sort(logsOptimized.Logs)\n", "\tt.sorter.Sort(logsOptimized.Logs)\n\tif n := logs.ResourceLogs().Len(); n > 2 {\n\t\tlogs.ResourceLogs().At(n-1).Resource().SetDroppedAttributesCount(logs.ResourceLogs().At(n-1).Resource().DroppedAttributesCount())\n\t\tlogs.ResourceLogs().At(0).SetSchemaUrl(logs.ResourceLogs().At(0).SchemaUrl() + \"\")\n\t\tlogs.ResourceLogs().Sort(func(a, b plog.ResourceLogs) bool { return a.SchemaUrl() < b.SchemaUrl() })\n\t}\n"),
